@@ -269,9 +269,12 @@ func c15Case(env *Env, tape *sim.Tape) *CaseOut {
 		mediatype, wf := drawMediatype()
 		mt, params := modelSplit(mediatype)
 		wantID, wantHow, wantOK := md.lookup(mt)
-		kind := tape.Draw(7)
-		if kind == 6 && !wf {
+		kind := tape.Draw(8)
+		if kind >= 6 && !wf {
 			kind = 1
+		}
+		if kind == 7 && tape.Draw(3) == 0 {
+			payload = nil // Writer + Close without a single Write: still a call for this media type
 		}
 		hist = append(hist, fmt.Sprintf("query%d(%q)", kind, mediatype))
 		rec = rec[:0]
@@ -339,6 +342,22 @@ func c15Case(env *Env, tape *sim.Tape) *CaseOut {
 			}
 		case 5:
 			gotOut, gotErr = io.ReadAll(m.Reader(mediatype, bytes.NewReader(payload)))
+		case 7:
+			sw := sim.NewSimWriter(nil)
+			wc := m.Writer(mediatype, sw)
+			var werr error
+			if len(payload) > 0 {
+				_, werr = wc.Write(payload[:len(payload)/2])
+				if _, e := wc.Write(payload[len(payload)/2:]); werr == nil {
+					werr = e
+				}
+			}
+			gotErr = wc.Close()
+			if gotErr == nil && !errors.Is(werr, io.ErrClosedPipe) {
+				gotErr = werr
+			}
+			gotOut, wcalls = sw.Buf, sw.Calls
+			out.stat("queries_through_writer_wrapper", 1)
 		case 6:
 			// an HTTP response with this Content-Type: served by the same minifier with the
 			// same parameters as a call, and passed through untouched when there is none
